@@ -9,7 +9,7 @@
    PrefixNormalizer.refitValue).  `xml_chardata_decode` / `xml_attvalue_decode`
    are the XML 1.0 rules an independent parser applies (None = not well-formed). *)
 From SV Require Import Lib.Base Gen.C04Tables C04.Model C04.EncProofs C04.DecodeProofs C04.RefitProofs C04.ReplyProofs
-     C04.TreeProofs C04.Chunks C04.Tokens C04.TokenProofs C04.PrettyTokens C04.NsModel C04.NsProofs C04.Bounded.
+     C04.TreeProofs C04.Chunks C04.Tokens C04.TokenProofs C04.PrettyTokens C04.NsModel C04.NsProofs C04.PositionProofs C04.Bounded.
 Local Open Scope N_scope.
 
 (* ------------------------------------------------------------------ *)
@@ -332,6 +332,20 @@ Theorem request_end_to_end : forall e (pr : bool),
   xml_infoset (if pr then doc_pretty e else doc_plain e) = ninfoset None [] e.
 Proof. exact request_end_to_end_l. Qed.
 Print Assumptions request_end_to_end.
+
+(* ... read position by position: wherever a leaf element sits in the document
+   (any path of child indexes: Envelope / Body / operation / ... ), the infoset
+   read back has at the same path exactly its text and its attribute values *)
+Theorem request_position : forall env (pr : bool) path pf n ex nsp attrs x,
+  nelem_ok env = true ->
+  ninfoset None [] env <> None ->
+  n_sub path env = Some (NEl pf n ex nsp attrs (Some x) []) ->
+  exists root leaf,
+    xml_infoset (if pr then doc_pretty env else doc_plain env) = Some root /\
+    it_sub path root = Some leaf /\
+    it_txt leaf = t_chars x /\ map snd (it_attrs leaf) = map (fun a => t_chars (snd a)) attrs.
+Proof. exact request_position_l. Qed.
+Print Assumptions request_position.
 
 Example request_end_to_end_nonvacuous :
   let soapenv := [117; 114; 110; 58; 101] in                       (* urn:e *)
